@@ -48,6 +48,7 @@ type jTy struct {
 	Name         string        `json:"name"`
 	PkgPath      *string       `json:"pkgPath"`
 	PkgName      string        `json:"pkgName"`
+	InScope      bool          `json:"inScope"` // the setup package's scope object of that name is this very type
 	Elem         int           `json:"elem"`
 	IsStruct     bool          `json:"isStruct"`
 	IsSlice      bool          `json:"isSlice"` // Underlying() is a slice; elem is then its element
@@ -109,8 +110,9 @@ type jFile struct {
 }
 
 type jImport struct {
-	Path  string `json:"path"`
-	Alias string `json:"alias"`
+	Path    string `json:"path"`
+	Alias   string `json:"alias"`
+	PkgName string `json:"pkgName"`
 }
 
 type jRegex struct {
@@ -253,6 +255,13 @@ func ExtractFacts(srcPath, dstPath, rel string) (*Facts, error) {
 		imp := jImport{Path: strings.ReplaceAll(spec.Path.Value, `"`, "")}
 		if spec.Name != nil {
 			imp.Alias = spec.Name.Name
+		}
+		if pkg.Types != nil {
+			for _, ip := range pkg.Types.Imports() {
+				if ip.Path() == imp.Path {
+					imp.PkgName = ip.Name()
+				}
+			}
 		}
 		f.Imports = append(f.Imports, imp)
 	}
@@ -507,6 +516,7 @@ func ExtractFacts(srcPath, dstPath, rel string) (*Facts, error) {
 				j.PkgPath = &p
 				j.PkgName = x.Obj().Pkg().Name()
 			}
+			j.InScope = pkg.Types.Scope().Lookup(x.Obj().Name()) == x.Obj()
 			for i := 0; i < x.NumMethods(); i++ {
 				m := x.Method(i)
 				sig := m.Type().(*types.Signature)
